@@ -3344,7 +3344,9 @@ Octagonal_Shape<T>::simplify_using_context_assign(const Octagonal_Shape& y) {
   if (x.contains(y)) {
     Octagonal_Shape<T> res(dim, UNIVERSE);
     x.m_swap(res);
-    return false;
+    // The intersection is `y' itself (which has been closed by the
+    // containment test, so that its emptiness is known).
+    return !y.marked_empty();
   }
 
   // Filter away the case where `x' is empty.
